@@ -58,7 +58,10 @@ struct Model {
 }
 
 /// Drive one history on one long-lived store, comparing every search with a freshly built store.
-fn run_history(cx: &mut Cx, lang: &'static str, ops: &[Op], sample: bool, across_threads: bool) -> bool {
+fn run_history(cx: &mut Cx, lang: &'static str, ops: &[Op], sample: bool, across_threads: bool, oracle_thread: bool) -> bool {
+    if oracle_thread {
+        cx.count("histories whose reference stores are built and searched on threads of their own");
+    }
     let mut st = St::new(lang, 10, ("[", "]"));
     if across_threads {
         cx.count("histories whose searches run on other threads than the adds (the store is moved there and back)");
@@ -158,7 +161,17 @@ fn run_history(cx: &mut Cx, lang: &'static str, ops: &[Op], sample: bool, across
                     st.search(q)
                 };
                 let fresh = St::build(m.lang, &m.recs, m.limit, m.markers);
-                let exp = fresh.search(q);
+                let exp = if oracle_thread {
+                    // the reference answer from a thread that has never run anything else (per-thread scratch state of
+                    // the library in its initial condition), instead of from this thread's shared scratch state
+                    let (l, recs, lim, mk, q2) = (m.lang, m.recs.clone(), m.limit, m.markers, q.clone());
+                    match std::thread::spawn(move || St::build(l, &recs, lim, mk).search(&q2)).join() {
+                        Ok(x) => x,
+                        Err(e) => std::panic::resume_unwind(e),
+                    }
+                } else {
+                    fresh.search(q)
+                };
                 cx.eval();
                 if mutated_since_last_search && last_query.as_deref().map(|l| l.trim_end() == q.trim_end()).unwrap_or(false) {
                     cx.count("search repeating the previous query after a mutation");
@@ -971,7 +984,7 @@ impl Prop for History {
     fn floors(&self) -> Vec<(&'static str, u64, u64)> {
         match self.0 {
             Which::NoCrash => vec![("searches", 20000, 200000), ("searches with hits", 5000, 50000), ("joined-record hits (two spans from a one-word query)", 50, 500), ("non-ASCII queries", 2000, 20000), ("limit 0", 200, 2000), ("limit 65536", 200, 2000), ("histories with boundary-value record ids", 2000, 20000), ("long-text searches", 500, 5000), ("long-text searches with a query over 255 characters", 100, 1000), ("corpus-store searches", 300, 3000), ("long-text cases with a giant word or a 1000+ word title", 20, 200), ("soak searches on one store", 600000, 2500000), ("most searches on one store max ", 66000, 66000), ("soak stores with more than 2^16 records", 2, 8), ("adds re-using the id of an earlier record", 5000, 50000), ("registry: searches", 10000, 300000), ("registry: searches with hits", 1500, 45000), ("registry: limit changes", 5000, 150000)],
-            Which::NoStale => vec![("search after add following an earlier search", 2000, 20000), ("search after clear following an earlier search", 500, 5000), ("search after limit following an earlier search", 500, 5000), ("empty-query search after a mutation following an earlier search", 1000, 10000), ("exhaustive histories", 20000, 200000), ("histories on a crowded store", 2000, 20000), ("histories that clear and refill a crowded store", 2000, 20000), ("histories growing a store past 64/128/256/512 records with searches in between", 200, 5000), ("histories growing a store past 1024 records with searches in between", 60, 1500), ("soak searches on one store", 1000000, 4000000), ("search repeating the previous query after a mutation", 2000, 20000), ("operations on another store of the same thread inside a history", 3000, 30000), ("registry-driven searches compared with a fresh store", 5000, 50000), ("adds re-using the id of an earlier record", 3000, 30000), ("histories whose searches run on other threads than the adds (the store is moved there and back)", 1500, 15000)],
+            Which::NoStale => vec![("search after add following an earlier search", 2000, 20000), ("search after clear following an earlier search", 500, 5000), ("search after limit following an earlier search", 500, 5000), ("empty-query search after a mutation following an earlier search", 1000, 10000), ("exhaustive histories", 20000, 200000), ("histories on a crowded store", 2000, 20000), ("histories that clear and refill a crowded store", 2000, 20000), ("histories growing a store past 64/128/256/512 records with searches in between", 200, 5000), ("histories growing a store past 1024 records with searches in between", 60, 1500), ("soak searches on one store", 1000000, 4000000), ("search repeating the previous query after a mutation", 2000, 20000), ("operations on another store of the same thread inside a history", 3000, 30000), ("registry-driven searches compared with a fresh store", 5000, 50000), ("adds re-using the id of an earlier record", 3000, 30000), ("histories whose searches run on other threads than the adds (the store is moved there and back)", 1500, 15000), ("histories whose reference stores are built and searched on threads of their own", 3000, 30000), ("histories with a very long word next to a threshold match", 2000, 20000)],
             Which::Registry => vec![("observations", 20000, 200000), ("observations with >= 2 live ids holding results", 2000, 20000), ("destroy", 300, 3000), ("searches", 3000, 30000), ("histories over 4-20 store ids", 1000, 10000), ("bursts of 45-120 records", 300, 3000), ("stores created with another language than their neighbours", 3000, 30000), ("searches repeating the text just sent to another id", 2000, 20000), ("histories whose result buffers are read only now and then", 5000, 50000)],
         }
     }
@@ -1022,6 +1035,27 @@ impl Prop for History {
                     }
                     cx.count("histories growing a store past 64/128/256/512 records with searches in between");
                 }
+                if cx.tier != Tier::Miri && cx.rng.chance(1, 10) {
+                    // a short word, a very long word that starts like it, and a query that is the short word's start behind a
+                    // spurious cheap letter: the long word makes per-thread scratch grow in the middle of a search whose
+                    // outcome for the short word sits at the acceptance threshold
+                    let alpha = gen::lower_alphabet(lang);
+                    let w = if cx.rng.chance(1, 2) { cx.rng.pick(&["house", "metal", "tiger", "rotor", "baker"]).to_string() } else { gen::rand_word(&mut cx.rng, &alpha, 4, 6) };
+                    let long = format!("{}{}", w, gen::rand_word(&mut cx.rng, &alpha, 17, 60));
+                    let lead = *cx.rng.pick(&['a', 'e', 'o', 'x']);
+                    let q: String = std::iter::once(lead).chain(w.chars().take(3)).collect();
+                    if cx.rng.chance(1, 2) {
+                        ops.push(Op::Add(long.clone(), 1));
+                        ops.push(Op::Add(w.clone(), 2));
+                    } else {
+                        ops.push(Op::Add(w.clone(), 2));
+                        ops.push(Op::Search(q.clone()));
+                        ops.push(Op::Add(long.clone(), 1));
+                    }
+                    ops.push(Op::Search(q.clone()));
+                    last_q = Some(q);
+                    cx.count("histories with a very long word next to a threshold match");
+                }
                 let refill_at = if cx.tier != Tier::Miri && cx.rng.chance(1, 5) { Some(cx.rng.below(n + 1)) } else { None };
                 for k in 0..=n {
                     if refill_at == Some(k) {
@@ -1055,7 +1089,8 @@ impl Prop for History {
                     run_history_registry(cx, lang, &ops);
                 } else {
                     let across = cx.tier != Tier::Miri && cx.rng.chance(1, 12);
-                    run_history(cx, lang, &ops, true, across);
+                    let oracle_thread = cx.tier != Tier::Miri && cx.rng.chance(1, 6);
+                    run_history(cx, lang, &ops, true, across, oracle_thread);
                 }
             }
             (Which::NoStale, "exhaustive") => {
@@ -1078,13 +1113,13 @@ impl Prop for History {
                         }
                         if ok {
                             total += 1;
-                            ok = run_history(cx, l, &ops, c == 77, false);
+                            ok = run_history(cx, l, &ops, c == 77, false, false);
                         }
                     }
                 }
                 if head < EXH_OPS {
                     // the length-1 histories
-                    run_history(cx, l, &[exh_op(head, l)], false, false);
+                    run_history(cx, l, &[exh_op(head, l)], false, false, false);
                     total += 1;
                 }
                 cx.count_n("exhaustive histories", total);
